@@ -35,6 +35,34 @@ thread_local! {
     static FINE_PROBE: Cell<Option<(u64, u64, u64)>> = const { Cell::new(None) };
 }
 
+/// Damage done to one stored blob of device 0 while it is down (bit rot, torn or lost write of
+/// an optional cache)
+#[derive(Clone, Debug, PartialEq, Eq)]
+pub enum BlobDamage {
+    /// Zero-length blob
+    Empty,
+    /// Only the first n bytes survive
+    Truncate(usize),
+    /// One bit flipped at (byte index mod length, bit)
+    FlipBit(usize, u8),
+    /// One byte overwritten at (index mod length)
+    SetByte(usize, u8),
+    /// Replaced by n pseudo-random bytes
+    Garbage(usize, u64),
+    /// n pseudo-random bytes appended
+    Extend(usize, u64),
+}
+
+thread_local! {
+    static BLOB_DAMAGE: RefCell<Option<(u16, BlobDamage)>> = const { RefCell::new(None) };
+}
+
+/// Ask the next `drive_full_with` on this thread to damage the blob stored under `key` at every
+/// restart of device 0 (if it exists)
+pub fn set_blob_damage(v: Option<(u16, BlobDamage)>) {
+    BLOB_DAMAGE.with(|c| *c.borrow_mut() = v);
+}
+
 /// Ask the next `drive_full_with` on this thread to call its step hook every `step` microseconds
 /// between `from` and `to` (it is every 100 ms otherwise)
 pub fn set_fine_probe(v: Option<(u64, u64, u64)>) {
@@ -374,6 +402,7 @@ pub fn drive_full_with(seed: u64, cfg: FullCfg, step_hook: &mut dyn FnMut(u64, &
     let mut stop;
     let mut all_done = false;
     let fine = FINE_PROBE.with(|c| c.take());
+    let blob_damage = BLOB_DAMAGE.with(|c| c.borrow_mut().take());
     loop {
         let mut step = 100 * MS;
         if let Some((from, to, fstep)) = fine {
@@ -484,6 +513,38 @@ pub fn drive_full_with(seed: u64, cfg: FullCfg, step_hook: &mut dyn FnMut(u64, &
         if matches!(restart_at, Some(t) if t <= kernel::now()) {
             restart_at = None;
             dev_inc += 1;
+            if let Some((key, dmg)) = &blob_damage {
+                let mut kv = kvs[0].0.borrow_mut();
+                if let Some(blob) = kv.data.get_mut(key) {
+                    let mut r = crate::tape::Rng::new(0);
+                    match dmg {
+                        BlobDamage::Empty => blob.clear(),
+                        BlobDamage::Truncate(n) => blob.truncate(*n % blob.len().max(1)),
+                        BlobDamage::FlipBit(i, b) => {
+                            if !blob.is_empty() {
+                                let i = *i % blob.len();
+                                blob[i] ^= 1 << (*b & 7);
+                            }
+                        }
+                        BlobDamage::SetByte(i, v) => {
+                            if !blob.is_empty() {
+                                let i = *i % blob.len();
+                                blob[i] = *v;
+                            }
+                        }
+                        BlobDamage::Garbage(n, seed) => {
+                            r = crate::tape::Rng::new(*seed);
+                            *blob = (0..*n).map(|_| r.next_u64() as u8).collect();
+                        }
+                        BlobDamage::Extend(n, seed) => {
+                            r = crate::tape::Rng::new(*seed);
+                            blob.extend((0..*n).map(|_| r.next_u64() as u8));
+                        }
+                    }
+                    let _ = &r;
+                    *fired.borrow_mut().entry("blob_damaged_while_down").or_default() += 1;
+                }
+            }
             net.set_up(0, true);
             spawn_device(&mut exec, 0, dev_inc);
         }
